@@ -155,7 +155,18 @@ func JSONMutate(r *core.Rand, doc []byte) []byte {
 		"", "0x", "0xZZ", "0x1", "0x" + strings.Repeat("F", 64), "abc", "-", "0x-1", []any{}, []any{json.Number("1")}, []any{"x"}, []any{nil}, []any{[]any{}},
 		map[string]any{}, map[string]any{"tag": "Name"}, "true", "TRUE", "1", "9999-99-99T00:00:00Z", "2020-01-01T00:00:00+25:00", strings.Repeat("9", 400)}
 	pick := func() any { return junk[r.Intn(len(junk))] }
-	switch r.Intn(12) {
+	switch r.Intn(14) {
+	case 12:
+		// members under non-canonical spellings only, two of them with different content
+		k := []string{"value", "type", "tag"}[r.Intn(3)]
+		if old, ok := e[k]; ok {
+			delete(e, k)
+			e[strings.ToUpper(k[:1])+k[1:]] = old
+			e[strings.ToUpper(k)] = pick()
+		}
+	case 13:
+		k := []string{"value", "type", "tag"}[r.Intn(3)]
+		e[strings.ToUpper(k)] = pick() // a look-alike next to the canonical member
 	case 0:
 		e["type"] = pick()
 	case 1:
